@@ -169,6 +169,11 @@ def _collect_inline_segments(
     elif isinstance(element, inline.InlineHTML):
         assert isinstance(element.children, str)
         segments.append((element.children, None))
+    elif isinstance(element, (inline.AutoLink, gfm_elements.Url)):
+        # The text of an autolink is its URL: context only, never modified.
+        for child in element.children:  # pyright: ignore
+            if isinstance(child, inline.RawText) and isinstance(child.children, str):
+                segments.append((child.children, None))
     elif hasattr(element, "children") and isinstance(element.children, list):  # pyright: ignore
         # Recursive container (Emphasis, StrongEmphasis, Link, Strikethrough, etc.)
         children: list[Element] = element.children  # pyright: ignore
